@@ -106,11 +106,71 @@ type TB struct {
 	all   []*Term
 	vars  map[string]*Term
 	fresh int
-	// axioms are global definitional assertions (for ORaw-defined fresh values).
-	axioms []*Term
+	// axioms are definitional assertions for fresh values (FP results), keyed by the fresh variable's term id;
+	// a query asserts exactly the axioms of the fresh variables it (transitively) mentions.
+	axioms   []*Term
+	axiomsOf map[int][]*Term
+	fvMemo   map[int][]int // term id -> ids of axiom-carrying variables below it
 }
 
-func NewTB() *TB { return &TB{tab: map[string]*Term{}, vars: map[string]*Term{}} }
+func NewTB() *TB {
+	return &TB{tab: map[string]*Term{}, vars: map[string]*Term{}, axiomsOf: map[int][]*Term{}, fvMemo: map[int][]int{}}
+}
+
+// AddAxiom attaches a definitional axiom to the fresh variable v.
+func (b *TB) AddAxiom(v *Term, ax *Term) { b.axiomsOf[v.id] = append(b.axiomsOf[v.id], ax) }
+
+// axiomVars returns the ids of axiom-carrying variables occurring in t.
+func (b *TB) axiomVars(t *Term) []int {
+	if r, ok := b.fvMemo[t.id]; ok {
+		return r
+	}
+	var out []int
+	if t.op == OVar {
+		if _, ok := b.axiomsOf[t.id]; ok {
+			out = []int{t.id}
+		}
+	} else {
+		seen := map[int]bool{}
+		for _, a := range t.args {
+			for _, v := range b.axiomVars(a) {
+				if !seen[v] {
+					seen[v] = true
+					out = append(out, v)
+				}
+			}
+		}
+	}
+	b.fvMemo[t.id] = out
+	return out
+}
+
+// AxiomsFor returns the transitive closure of axioms needed by the given terms.
+func (b *TB) AxiomsFor(ts []*Term) []*Term {
+	var out []*Term
+	done := map[int]bool{}
+	var work []int
+	for _, t := range ts {
+		work = append(work, b.axiomVars(t)...)
+	}
+	for len(work) > 0 {
+		v := work[len(work)-1]
+		work = work[:len(work)-1]
+		if done[v] {
+			continue
+		}
+		done[v] = true
+		for _, ax := range b.axiomsOf[v] {
+			out = append(out, ax)
+			for _, w := range b.axiomVars(ax) {
+				if !done[w] {
+					work = append(work, w)
+				}
+			}
+		}
+	}
+	return out
+}
 
 func mask(w int) uint64 {
 	if w >= 64 {
